@@ -58,7 +58,7 @@ DOMAIN_TEXT = c05.DOMAIN_TEXT
 SHARED_OBJECTS = "o1 o2 - t1 o3 - t3 u1 - t2"
 SHARED_DECL = {"o1": "t1", "o2": "t1", "o3": "t3", "u1": "t2"}
 POOL = ["(p o1)", "(q o1 o2)", "(r)", "(q o2 o2)", "(p k)", "(s u1)", "(p o3)"]
-FLUENTS = ["(f o1)", "(g)", "(h o2 o1)", "(h o1 o1)"]
+FLUENTS = ["(f o1)", "(g)", "(h o2 o1)", "(h o1 o1)", "(f k)", "(h k o1)"]  # incl. fluents over the domain constant
 GOAL_SPLITS = [
     [[], [], [], []],
     [[["p", "o1"]], [["p", "o1"], ["r"]], [["q", "o1", "o2"]], [["r"]]],
